@@ -20,6 +20,7 @@ A_STORE = [
 ]
 
 NODE = P + "node."
+TXB = 'genesis: 3 funded accounts (symbolic balances < 2^100), validators A0,A1 (symbolic power), symbolic governance parameters; 2 empty blocks; prelude block (proposal by A0 / reward issuance to A0 where the tx type needs it); then ONE transaction of each of the 7 native types with sender in {A0,A1,A2}, type-specific receivers (incl. zero address / account-less address), symbolic amount < 2^101, gas < 2^42, nonce in [0,3], gas price in {governance price, +1}'
 
 CHECKS = {
     "SMOKE": {"quick": [{"name": NODE + "ZZ_Smoke", "reach": ["smoke end"]}], "assumptions": []},
@@ -35,6 +36,49 @@ CHECKS = {
         "outside": "Cancel* operations and the mempool view of a key after a consensus delete (not fixed by the statement); longer sequences; more than 2 keys; IAVL/goleveldb internals (A-IAVL)",
         "assumptions": A_COMMON + A_STORE,
         "maxpaths": 3000000,
+    },
+    "C02": {
+        "quick": [
+            {"name": NODE + "ZZ_C02_V1", "reach": ["V1 end"], "bound": TXB + "; block with / without proposer; EndBlock"},
+            {"name": STAKE + "ZZ_C11_B3", "reach": ["B3 end"], "bound": "3 staking/unstaking transactions in one block on one delegatee (delete / re-create / modify): every stake stays recorded exactly once with its power (value not destroyed)"},
+            {"name": STAKE + "ZZ_C12_O3", "reach": ["O3 end"], "bound": "refund of <=3 matured unbonding stakes: owners credited exactly power x 10^18"},
+            {"name": STAKE + "ZZ_C12_O4", "reach": [], "bound": "two genesis stakes unbonding (known finding C12-K1: one refund lost)"},
+        ],
+        "bounds": "one transaction + block end from a symbolic genesis; staking sequences of 3; <=3 refunds",
+        "outside": "value moved inside the EVM (contract storage / internal calls) beyond the copy-in/copy-out decided under C17; slashing (C14 shows that only the offender's stakes shrink); histories longer than the harness blocks except through the one-step argument",
+        "assumptions": A_COMMON + A_STORE + ["A-SIG", "A-HASH", "A-GOV", "A-EVM for BeginBlock/Commit of the EVM controller (no contract transaction in these harnesses)"],
+    },
+    "C03": {
+        "quick": [
+            {"name": NODE + "ZZ_C03_I23", "reach": ["I23 success", "I23 forged rejected", "I23 honest failure"], "bound": TXB + "; signature: honest | signed by another key | signed for another chain id | one of 8 fields (amount, nonce, gas, receiver, time, version, sender, payload/gas price) altered after signing"},
+        ],
+        "bounds": "one transaction; 8 single-field alterations; the RLP encoding is modelled as an injective function of the struct the repository hands to rlp.Encode (its own narrowing casts are executed)",
+        "outside": "the cryptography itself (A-SIG); injectivity of go-ethereum's RLP for the encoded struct (A-CODEC); CheckTx (does not verify signatures by design and has no effects - C06)",
+        "assumptions": A_COMMON + A_STORE + ["A-SIG: recovery yields the signer's address only for exactly the signed bytes; otherwise an unrelated address", "A-CODEC", "A-HASH", "A-GOV"],
+    },
+    "C04": {
+        "quick": [
+            {"name": NODE + "ZZ_C04_N12", "reach": ["N12 success", "N12 failure"], "bound": TXB + "; on success the same bytes are delivered again in the same block or in the next block"},
+        ],
+        "bounds": "one transaction + one replay",
+        "outside": "contract transactions (nonce handled inside the EVM: decided under C17 when registered); exactly-once over arbitrary histories follows from N1 (a nonce only ever rises by one on success) and is cross-checked by the replay",
+        "assumptions": A_COMMON + A_STORE + ["A-SIG", "A-HASH", "A-GOV"],
+    },
+    "C05": {
+        "quick": [
+            {"name": NODE + "ZZ_C05_A1", "reach": ["A1 failure", "A1 success"], "bound": TXB + "; after a failing tx every balance/nonce/name/doc/code marker of 5 accounts, bonded and unbonding stakes, rewards, the tracked proposal and the fee sum are compared, then an observer transfer A2->A1 with symbolic amount runs in the same block"},
+        ],
+        "bounds": "one failing transaction of a native type (every error return reachable from DeliverTx for these inputs) + one observer transaction",
+        "outside": "contract storage/code (A-EVM); an empty receiver account created by a failing tx is equal to no account under the abstraction absent == zero balance/nonce, no name/doc/code",
+        "assumptions": A_COMMON + A_STORE + ["A-SIG", "A-HASH", "A-GOV"],
+    },
+    "C16": {
+        "quick": [
+            {"name": NODE + "ZZ_C16_F12", "reach": ["F12 success", "F12 failure"], "bound": TXB + "; EndBlock with proposer A1"},
+        ],
+        "bounds": "one native transaction + block end",
+        "outside": "contract transactions (gas used by the EVM: C17); a governance price change between blocks (C15/G6 shows parameters switch only at Commit)",
+        "assumptions": A_COMMON + A_STORE + ["A-SIG", "A-HASH", "A-GOV"],
     },
     "C09": {
         "quick": [
